@@ -157,7 +157,15 @@ class _NonrecursivePickler(dill.Pickler):
                         self.lazywrites.extend(lws)
                         break
                 elif isinstance(lw, _LazyMemo):
-                    self.realmemoize(lw.obj)
+                    if id(lw.obj) in self.memo:
+                        # the object was reached again, and memoized, while
+                        # its own parts were being written: drop the copy
+                        # just built and fetch the memoized one instead
+                        self.realwrite(
+                            pickle.POP + self.get(self.memo[id(lw.obj)][0])
+                        )
+                    else:
+                        self.realmemoize(lw.obj)
                 else:
                     self.realwrite(*lw)
         self.realwrite(pickle.STOP)
